@@ -3,7 +3,9 @@
 //!
 //! Every element carries a unique id registered in a thread-local monitor. `Clone`, `Drop`,
 //! `Default` (tracked prefix), `Iterator::next` and the `resize_with` generator are "user
-//! callbacks": while the monitor is armed they are counted and the k-th one panics. The monitor
+//! callbacks" — and so are the `pop_if` predicate, `IntoIterator::into_iter`, `Iterator::size_hint`
+//! and the destructor of the caller's iterator: while the monitor is armed they are counted and
+//! the k-th one panics. The monitor
 //! records `mk a | cl a>b | dr a | rt a`; a drop/return of an unknown or already-dropped id is a
 //! monitor violation (reported as kind "monitor"), never an abort. One line per operation is sent
 //! to the Lean driver and its answer (`ret | len | cap | ids | calls | trace`) is compared with
@@ -342,7 +344,28 @@ fn give<E: Elem>(e: E) -> u64 {
     raw.unwrap_or(u64::MAX)
 }
 
-/// Iterator whose `next` is a user callback.
+/// A user collection: `IntoIterator::into_iter` is a user callback.
+struct GenIterable<E: Elem> {
+    left: usize,
+    hint: usize,
+    _p: std::marker::PhantomData<E>,
+}
+impl<E: Elem> GenIterable<E> {
+    fn new(hint: usize, left: usize) -> Self {
+        GenIterable { left, hint, _p: std::marker::PhantomData }
+    }
+}
+impl<E: Elem> IntoIterator for GenIterable<E> {
+    type Item = E;
+    type IntoIter = GenIter<E>;
+    fn into_iter(self) -> GenIter<E> {
+        tick();
+        GenIter { left: self.left, hint: self.hint, _p: std::marker::PhantomData }
+    }
+}
+
+/// User iterator: `next`, `size_hint` and its own `Drop` are user callbacks; the lower size
+/// hint may under- or over-state the number of items.
 struct GenIter<E: Elem> {
     left: usize,
     hint: usize,
@@ -360,7 +383,13 @@ impl<E: Elem> Iterator for GenIter<E> {
         }
     }
     fn size_hint(&self) -> (usize, Option<usize>) {
+        tick();
         (self.hint, None)
+    }
+}
+impl<E: Elem> Drop for GenIter<E> {
+    fn drop(&mut self) {
+        tick();
     }
 }
 
@@ -380,6 +409,10 @@ enum Op {
     Push,
     TryPush,
     Pop,
+    /// `pop_if(|_| answer)`, the predicate being a user callback
+    PopIf(bool),
+    /// `FromIterator::from_iter` into a temporary vector that is then dropped
+    FromIter(usize, usize),
     Insert(usize),
     TryInsert(usize),
     Remove(usize),
@@ -408,6 +441,8 @@ impl Op {
             Op::Push => "push".into(),
             Op::TryPush => "try_push".into(),
             Op::Pop => "pop".into(),
+            Op::PopIf(b) => format!("pop_if {}", if *b { "t" } else { "f" }),
+            Op::FromIter(h, n) => format!("from_iter {h} {n}"),
             Op::Insert(i) => format!("insert {i}"),
             Op::TryInsert(i) => format!("try_insert {i}"),
             Op::Remove(i) => format!("remove {i}"),
@@ -438,6 +473,8 @@ impl Op {
             "push" => Op::Push,
             "try_push" => Op::TryPush,
             "pop" => Op::Pop,
+            "pop_if" => Op::PopIf(*w.get(1)? == "t"),
+            "from_iter" => Op::FromIter(n(1)?, n(2)?),
             "insert" => Op::Insert(n(1)?),
             "try_insert" => Op::TryInsert(n(1)?),
             "remove" => Op::Remove(n(1)?),
@@ -558,7 +595,7 @@ macro_rules! common_ops {
             }
             Op::ExtWithin(a, b) => Some(unit(armed(|| $v.extend_from_within(*a..*b)))),
             Op::ExtIter(h, n) => Some(unit(armed(|| {
-                $v.extend(GenIter::<$E> { left: *n, hint: *h, _p: std::marker::PhantomData })
+                $v.extend(GenIterable::<$E>::new(*h, *n))
             }))),
             Op::SplitOff(i) => Some(unit(armed(|| {
                 let o = $v.split_off(*i);
@@ -628,6 +665,20 @@ impl<E: Elem, const CAP: usize> Cont for InlineVec<E, CAP> {
                 }
             }
             Op::ResizeWith(n) => unit(armed(|| v.resize_with(*n, || E::gen()))),
+            Op::PopIf(ans) => match armed(|| {
+                v.pop_if(|_| {
+                    tick();
+                    *ans
+                })
+            }) {
+                Ok(None) => Ret::None,
+                Ok(Some(e)) => Ret::Some(give(e)),
+                Err(()) => Ret::Panic,
+            },
+            Op::FromIter(h, n) => unit(armed(|| {
+                let t = <InlineVec<E, CAP> as FromIterator<E>>::from_iter(GenIterable::<E>::new(*h, *n));
+                drop(t);
+            })),
             Op::Clone => unit(armed(|| {
                 let c = v.clone();
                 drop(c);
@@ -727,7 +778,13 @@ impl<E: Elem, P: PrefixKind> Cont for thin::ThinVec<E, P> {
             return r;
         }
         match op {
-            Op::TryPush | Op::TryInsert(_) | Op::ResizeWith(_) | Op::IntoIter(_) => Ret::Na,
+            Op::TryPush | Op::TryInsert(_) | Op::ResizeWith(_) | Op::IntoIter(_) | Op::PopIf(_) => {
+                Ret::Na
+            }
+            Op::FromIter(h, n) => unit(armed(|| {
+                let t = <thin::ThinVec<E, P> as FromIterator<E>>::from_iter(GenIterable::<E>::new(*h, *n));
+                drop(t);
+            })),
             Op::Clone => unit(armed(|| {
                 let c: thin::ThinVec<E, P> = thin::ThinVec::from(v.as_slice());
                 drop(c);
@@ -1204,6 +1261,7 @@ fn alphabet(cfg: Cfg, fill: usize) -> Vec<Op> {
         Op::ExtSlice(2),
         Op::ExtWithin(0, f.max(1)),
         Op::ExtIter(1, 2),
+        Op::FromIter(1, 2),
         Op::Clone,
         Op::Append(2.min(cap)),
         Op::SplitOff(1),
@@ -1228,6 +1286,8 @@ fn alphabet(cfg: Cfg, fill: usize) -> Vec<Op> {
             Op::TryPush,
             Op::TryInsert(0),
             Op::ResizeWith(f + 2),
+            Op::PopIf(true),
+            Op::PopIf(false),
             Op::IntoIter("nd".into()),
             Op::IntoIter("bl".into()),
         ]);
@@ -1284,10 +1344,23 @@ fn random_op(rng: &mut Rng, cfg: Cfg, len: usize) -> Op {
                 let b = idx(rng);
                 Op::Drain(a.min(b), a.max(b), script(rng))
             }
-            18 => Op::Roundtrip,
+            18 => {
+                if rng.chance(1, 2) {
+                    Op::Roundtrip
+                } else {
+                    let n = rng.below(cap + 2);
+                    Op::FromIter(rng.below(n + 2), n)
+                }
+            }
             19 if cfg.is_thin() => Op::ShrinkFit,
             20 if cfg.is_thin() => Op::Reserve(rng.below(2 * cap + 2)),
-            19 => Op::TryPush,
+            19 => {
+                if rng.chance(1, 2) {
+                    Op::TryPush
+                } else {
+                    Op::PopIf(rng.chance(1, 2))
+                }
+            }
             20 => Op::TryInsert(idx(rng)),
             21 if !cfg.is_thin() => Op::ResizeWith(small(rng)),
             22 if !cfg.is_thin() => Op::IntoIter(script(rng)),
